@@ -132,9 +132,10 @@ theorem sub_ok (a o : Option BitArr) (ha : Consistent a) (ho : Consistent o) :
     | none => exact ⟨none, rfl, trivial, by intro x hx; cases hx⟩
     | some y =>
       obtain ⟨hx0, hxe⟩ := ha
-      simp only [sub, copyBits_ok x.bits hx0]
-      have : ¬ (min x.elems y.elems > ((x.bits + 63) / 64).toNat) := by omega
-      simp only [this, if_false]
+      simp only [sub, subWith, copyBits_ok x.bits hx0]
+      have : subLoopOk (min x.elems y.elems) ((x.bits + 63) / 64).toNat y.elems = true := by
+        simp only [subLoopOk, Bool.and_eq_true, decide_eq_true_eq]; omega
+      simp only [this, if_true]
       exact ⟨_, rfl, ⟨hx0, by simp; omega⟩, by intro z hz; cases hz; exact ⟨x, rfl, rfl⟩⟩
 
 /-- `Or` of consistent arrays does not panic -/
